@@ -231,6 +231,18 @@ def eval_case(desc, ctx):
                 "observed": r.get("observed")}
     if desc["k"] == "bulk":
         return eval_bulk(desc)
+    if desc["k"] == "warmpid":
+        # identifiers across a warm start (oracle only): the restarted run must hand out the identifiers the
+        # uninterrupted run hands out — never one that a (dead) particle of the first leg already had
+        import c08_impl
+
+        d = ctx.subdir("c05warm")
+        for f in d.glob("*"):
+            f.unlink()
+        diffs, pids = c08_impl.warm_pid_scenario(d, desc["adv"])
+        bad = [x for x in diffs if "pid" in x or "records" in x or "files" in x or "crash" in x]
+        return {"ints": None, "oracle": ("identifiers after a warm start: " + "; ".join(bad[:2])) if bad else None,
+                "nontrivial": ("warmpid", desc["adv"]), "kind": "warm-start-pids", "observed": {"pids_uninterrupted": pids}}
     st = make_state()
     ref = Ref()
     ints = [len(ICOLS), len(PCOLS)] + [IDEF.get(c, NAN) for c in ICOLS] + [PDEF.get(c, NAN) for c in PCOLS] + [len(desc["ops"])]
@@ -416,6 +428,7 @@ def gen_cases(ctx):
          ["compactify"], ["setp", "origin", [8]], ["append", {"X": 1, "Y": 2, "Z": 3, "origin": 4}]],
     ]):
         out.append({"k": "ops", "gen": "fixed-setp", "ops": ops, "obs": ["dict", "attr", "item"][i % 3]})
+    out.append({"k": "warmpid", "adv": "EF"})
     # states of realistic size (oracle only)
     for n, dead, more in [(150000, [17], 3), (300000, [17, 123456], 0), (120000, [0, 119999], 2), (100001, [50000], 1)]:
         out.append({"k": "bulk", "n": n, "dead": dead, "more": more})
